@@ -17,6 +17,23 @@ fn run_one(payload: &str) -> String {
     if fb != fo || rb != ro {
         out.push_str(" BORROWED!=OWNED");
     }
+    // the bundle-side owner of a parsed source: same entries, same errors (positions and slices relative to
+    // `source()`), and `source()` is the text that was handed in
+    let (res, errs) = match fluent_bundle::FluentResource::try_new(src.clone()) {
+        Ok(r) => (r, vec![]),
+        Err((r, e)) => (r, e),
+    };
+    let (ast, perrs) = match parse_runtime(src.as_str()) {
+        Ok(a) => (a, vec![]),
+        Err((a, e)) => (a, e),
+    };
+    let same_entries = res.entries().count() == ast.body.len()
+        && res.entries().zip(ast.body.iter()).all(|(a, b)| a == b)
+        && (0..ast.body.len()).all(|i| res.get_entry(i) == ast.body.get(i))
+        && res.get_entry(ast.body.len()).is_none();
+    if !same_entries || errs != perrs || res.source() != src.as_str() {
+        out.push_str(" RESOURCE!=PARSE_RUNTIME");
+    }
     out
 }
 
